@@ -49,15 +49,16 @@ Definition can_choose (base : node) (seqs : list (list node)) : bool :=
                     | h :: _ => if Nat.eqb h base then true else negb (mem base s)
                     end) seqs.
 
-(* C3._find_next_C3_base (sequences are non-empty when this is called) *)
-Definition find_next (seqs : list (list node)) : option node :=
-  let fix go (l : list (list node)) : option node :=
-    match l with
-    | [] => None
-    | [] :: l' => go l'
-    | (h :: _) :: l' => if can_choose h seqs then Some h else go l'
-    end in
-  go seqs.
+(* C3._find_next_C3_base (sequences are non-empty when this is called): the first head,
+   in sequence order, that can be chosen *)
+Fixpoint find_from (cands seqs : list (list node)) : option node :=
+  match cands with
+  | [] => None
+  | [] :: l' => find_from l' seqs
+  | (h :: _) :: l' => if can_choose h seqs then Some h else find_from l' seqs
+  end.
+
+Definition find_next (seqs : list (list node)) : option node := find_from seqs seqs.
 
 Inductive mres := MOk (l : list node) | MBad | MFuel.
 
@@ -165,3 +166,14 @@ Fixpoint fresh_sro (fuel : nat) (root : node) (g : graph) (x : node) : list node
       | _ => []
       end
   end.
+
+(* ---- Specification.changed (interface.py): __iro__ keeps the interfaces of __sro__ *)
+Definition iro_of (is_iface : node -> bool) (sro : list node) : list node := filter is_iface sro.
+
+(* ---- well-formedness of a hierarchy, as a boolean: every base has a smaller rank (so the graph
+   is acyclic; the real code recurses forever on a cycle) and no base list repeats an entry *)
+Fixpoint nodup_b (l : list node) : bool :=
+  match l with [] => true | x :: t => negb (mem x t) && nodup_b t end.
+
+Definition wfb (rk : node -> nat) (g : graph) : bool :=
+  forallb (fun e => nodup_b (snd e) && forallb (fun b => Nat.ltb (rk b) (rk (fst e))) (snd e)) g.
